@@ -93,6 +93,7 @@ Inductive sop :=
 | SView (coll ddoc view : string) (p : vparams)
 | SExpire                        (* the expiry timer fires (bucket.doExpiration) *)
 | SDumpKeys (coll : string) (start : N)       (* a dump feed with KeysOnly: the same events without body and xattrs *)
+| SGetDDocs (coll : string)      (* GetDDocs: the collection's design documents and their views *)
 | SDraw (coll key : string) (op : kop) (b : N).
                                  (* the compare-and-swap loop of the call `op` that follows (Update, WriteUpdateWithXattrs,
                                     sub-document writes) began b transactions in all: those beyond what the call itself
@@ -437,6 +438,23 @@ Definition is_view (cid : N) (ddoc name : string) (v : vdef) : bool :=
   (vd_coll v =? cid) && String.eqb (vd_ddoc v) ddoc && String.eqb (vd_name v) name.
 Definition in_ddoc (cid : N) (ddoc : string) (v : vdef) : bool := (vd_coll v =? cid) && String.eqb (vd_ddoc v) ddoc.
 
+(* What GetDDocs answers, as sorted lines: "ddoc" for every design document of the collection and
+   "ddoc/view=m" for each of its views (m: which of the family's map functions). *)
+Fixpoint str_insert (x : string) (l : list string) : list string :=
+  match l with
+  | [] => [x]
+  | y :: t => match String.compare x y with
+              | Lt => x :: l
+              | Eq => l
+              | Gt => y :: str_insert x t
+              end
+  end.
+Definition str_sort (l : list string) : list string := fold_right str_insert [] l.
+Definition ddoc_lines (cid : N) (vs : list vdef) : list string :=
+  str_sort (flat_map (fun v => if vd_coll v =? cid
+                               then [vd_ddoc v; (vd_ddoc v ++ "/" ++ vd_name v ++ "=" ++ N_to_dec (vd_map v))%string]
+                               else []) vs).
+
 Definition with_views (s : store) (vs : list vdef) : store :=
   mkStore (s_docs s) (s_colls s) (s_nextcoll s) (s_lastcas s) (s_high s) (s_log s) vs.
 
@@ -538,6 +556,11 @@ Definition sstep (s : store) (x : sctx) (o : sop) : sres :=
   | SExpire =>
       let '(s', evs) := expire_colls s x (map fst (s_colls s)) [] in
       mkSres s' ROk evs []
+  | SGetDDocs coll =>
+      match coll_id s coll with
+      | Some cid => mkSres s (RRows (ddoc_lines cid (s_views s))) [] []
+      | None => mkSres s (RErr EOther) [] []
+      end
   | SDumpKeys coll start =>
       match coll_id s coll with
       | Some cid => mkSres s ROk [] (marker FBegin :: map strip_value (backfill_events s cid start) ++ [marker FEnd])
